@@ -8,6 +8,7 @@ applied to the byte string before the run by the property modules; this module
 reports which of them the reader actually *met*.
 """
 import io
+import threading
 import random
 import tempfile
 
@@ -196,21 +197,36 @@ class TempSeam:
         self.files = []
 
 
+_SEAM_TL = threading.local()
+
+
+def _seam_dispatch(*a, **kw):
+    """Installed once at body_mixin.TemporaryFile: routes the call to the seam the calling
+    thread has entered (threads of a concurrent run each have their own), else to the real thing."""
+    stack = getattr(_SEAM_TL, 'stack', None)
+    if stack:
+        return stack[-1](*a, **kw)
+    return tempfile.TemporaryFile(*a, **kw)
+
+
 class temp_seam:
-    """Context manager installing a TempSeam at the module attribute seam."""
+    """Context manager installing a TempSeam at the module attribute seam (per thread)."""
 
     def __init__(self, mode='real'):
         self.seam = TempSeam(mode)
 
     def __enter__(self):
         from ombott.request_pkg import body_mixin
-        self._bm = body_mixin
-        self._orig = body_mixin.TemporaryFile
-        body_mixin.TemporaryFile = self.seam
+        if body_mixin.TemporaryFile is not _seam_dispatch:
+            body_mixin.TemporaryFile = _seam_dispatch
+        stack = getattr(_SEAM_TL, 'stack', None)
+        if stack is None:
+            stack = _SEAM_TL.stack = []
+        stack.append(self.seam)
         return self.seam
 
     def __exit__(self, *exc):
-        self._bm.TemporaryFile = self._orig
+        _SEAM_TL.stack.pop()
         self.seam.close_all()
         return False
 
